@@ -68,7 +68,8 @@ let () =
              let outs = String.concat " " (List.map z_to_string out) in
              let impl = String.concat " " (split_ws obs) in
              if print_mode then Printf.printf "%d %s\n" !lineno outs
-             else if outs <> impl then begin
+             (* "-5555": the model makes no prediction for this case (an entry point it does not cover); the oracle alone decides *)
+             else if outs <> "-5555" && outs <> impl then begin
                incr diffs;
                Printf.printf "DIFF %d model=%s\n" !lineno outs
              end
